@@ -70,12 +70,16 @@ func buildPlan(id string, pinned map[string]string, tier string) *Plan {
 		for _, pk := range marshalPkgs("/repo") {
 			p.Units = append(p.Units, Unit{Pkg: pk, Tags: "", Groups: []string{"marshal"}})
 		}
+		for _, c := range g2MarshalCfgs("/repo") {
+			p.Units = append(p.Units, Unit{Pkg: c.Pkg, Tags: "", Groups: []string{"marshalg2"}})
+		}
 		p.Trusted = []string{"ring layer: coordinate decoders (SetBytesCanonical: proved under C08) are opaque here, only their error result is used",
 			"IsInSubGroup is an assumed pure predicate (exactness of the subgroup test is number theory); IsOnCurve is used through its C02 contract",
 			"Sqrt returns a square root or nil (C01 contract of Sqrt is not yet proved: assumed at this layer)"}
-		p.NotCovered = []string{"G2 decoders, encoders (Bytes / RawBytes), round trip Bytes/SetBytes, streaming Encoder / Decoder (reflection, io.Reader chunking, parallel Y recovery): not under contract",
+		p.NotCovered = []string{"G2 decoders over an extension field: the sign selection of the recovered Y and the value Y^2 = X^3 + b' are not stated (the extension-field methods are opaque calls: the clauses say that Legendre and Sqrt were applied to the same YSquared object and that Legendre != -1)",
+			"encoders (Bytes / RawBytes), round trip Bytes/SetBytes, streaming Encoder / Decoder (reflection, io.Reader chunking, parallel Y recovery): not under contract",
 			"secp256k1 (different decoder shape) and twisted-Edwards point decoding: not under contract (twistededwards.PointAffine.SetBytes has no rejection path at all: see DESIGN.md findings)"}
-		p.Note = "G1Affine.setBytes / unsafeSetCompressedBytes of every curve with the generated decoder: a nil error is returned only if the flag pattern is valid, the coordinates decoded canonically, infinity encodings are all-zero, an uncompressed point passed the subgroup test or (when disabled) the on-curve test, a compressed point has Y = +-sqrt(X^3+b) with the sign selected by the flag and passed the subgroup test when enabled; byte counts match; short buffers give errors (no panic: all slice bounds are obligations)."
+		p.Note = "G2Affine.setBytes of the 7 curves with a G2 decoder: same acceptance-implies-check clauses with all 2k (raw) / k (compressed) base-field coordinates decoded canonically (k = extension degree), the Legendre test and the square root applied to the same value. G1Affine.setBytes / unsafeSetCompressedBytes of every curve with the generated decoder: a nil error is returned only if the flag pattern is valid, the coordinates decoded canonically, infinity encodings are all-zero, an uncompressed point passed the subgroup test or (when disabled) the on-curve test, a compressed point has Y = +-sqrt(X^3+b) with the sign selected by the flag and passed the subgroup test when enabled; byte counts match; short buffers give errors (no panic: all slice bounds are obligations)."
 		return p
 	case "C17":
 		p := &Plan{ID: id}
